@@ -10,6 +10,7 @@
 //!   err:N            write N bytes to stderr
 //!   exit:CODE        exit with CODE
 //!   abort            die from SIGABRT
+//!   kill:SIG         die from signal SIG
 //!   ignore_sigpipe   keep running when stdout is closed (writes fail with EPIPE)
 //! Without a matching entry the stub copies the file to stdout (like `cat`).
 //! Whatever happens is deterministic: no clocks, no randomness.
@@ -86,6 +87,15 @@ fn main() {
             "abort" => unsafe {
                 libc::abort();
             },
+            "kill" => {
+                // die from the given signal (after flushing what was written)
+                let _ = out.flush();
+                let sig: i32 = parts[1].parse().unwrap_or(15);
+                unsafe {
+                    libc::signal(sig, libc::SIG_DFL);
+                    libc::raise(sig);
+                }
+            }
             "ignore_sigpipe" => {
                 ignore_pipe = true;
                 unsafe { libc::signal(libc::SIGPIPE, libc::SIG_IGN) };
